@@ -24,7 +24,7 @@ def run(chk):
     chk.assumptions = list(wc.ASSUMPTIONS) + [
         "MD5: the model takes the digest function as a parameter with the single hypothesis that a digest has 16 bytes; that STREAMINFO carries the MD5 of the little-endian sign-extended PCM bytes is checked on the implementation with an independent MD5",
     ]
-    proof_ok = wc.proof_stage(chk, THEOREMS, e2e_theorems=["C09_sample_writer_seekpoints", "C09_end_to_end_seekpoints"])
+    proof_ok = wc.proof_stage(chk, THEOREMS, e2e_theorems=["C09_sample_writer_seekpoints", "C09_byte_writer_seekpoints", "C09_channel_writer_seekpoints", "C09_end_to_end_seekpoints"])
     runs = []
     for profile in ("release",) + (("debug",) if chk.tier == "thorough" else ()):
         r = wc.run_harness(chk, "c09", profile, timeout=3000)
